@@ -201,6 +201,24 @@ def _inline_awaited(raws, cur, blk, t, cpath):
             nb["term"]["target"] = fin
     blk["stmts"] = blk["stmts"] + [{"pl": {"l": off_l + 1, "p": []}, "rv": {"k": "use", "o": copy.deepcopy(t["args"][0])}, "line": line},
                                    {"pl": {"l": off_l + 2, "p": []}, "rv": {"k": "use", "o": copy.deepcopy(t["args"][1])}, "line": line}]
+    # the poll's result is Ready on every path now: the `Pending => yield, poll again` arm of the await loop is dead; cut it, so that the
+    # control-flow graph has no cycle through the inlined body that the program cannot take
+    dl = t["dest"]["l"] if not t["dest"]["p"] else None
+    nb_i, hops = t["target"], 0
+    while dl is not None and nb_i is not None and hops < 6:
+        hops += 1
+        nb = cur["blocks"][nb_i]
+        tt = nb["term"]
+        if tt and tt.get("k") == "switch":
+            reads = any(st.get("rv", {}).get("k") == "discr" and st["rv"]["pl"]["l"] == dl for st in nb["stmts"] if "rv" in st)
+            ready = [tg for v, tg in tt.get("targets", []) if v == 0]
+            if reads and ready:
+                nb["term"] = {"k": "goto", "target": ready[0], "line": tt.get("line", line), "lowered": AWAITED}
+            break
+        if tt and tt.get("k") in ("goto", "false_edge", "drop") and tt.get("target") is not None:
+            nb_i = tt["target"]
+            continue
+        break
     blk["term"] = {"k": "goto", "target": off_b, "line": line, "inlined": cpath}
 
 
@@ -515,6 +533,7 @@ def inline_body(raws, known, path, raw):
             line = t.get("line", cur.get("line"))
             for nb_i, nb in enumerate(new_blocks):
                 nb["file"] = callee.get("file")
+                nb.setdefault("from_fn", name)       # innermost helper the block came from
                 if nb["term"] and nb["term"]["k"] == "return":
                     nb["term"] = {"k": "goto", "target": r_idx, "line": nb["term"].get("line", line), "exp": nb["term"].get("exp")}
                 origin[off_b + nb_i] = stack + (name,)
@@ -522,8 +541,11 @@ def inline_body(raws, known, path, raw):
             params = {"cleanup": False, "stmts": [], "term": {"k": "goto", "target": off_b, "line": line}, "inlined_call": name}
             for i, a in enumerate(t.get("args", [])):
                 params["stmts"].append({"pl": {"l": off_l + 1 + i, "p": []}, "rv": {"k": "use", "o": copy.deepcopy(a)}, "line": line})
-            ret = {"cleanup": False, "stmts": [], "term": ({"k": "goto", "target": t["target"], "line": line} if t.get("target") is not None
-                                                               else {"k": "unreachable", "line": line})}
+            ret = {"cleanup": False, "stmts": [], "inlined_ret": name, "term": ({"k": "goto", "target": t["target"], "line": line} if t.get("target") is not None
+                                                                                        else {"k": "unreachable", "line": line})}
+            if blk.get("from_fn"):
+                params["from_fn"] = blk["from_fn"]
+                ret["from_fn"] = blk["from_fn"]
             if t.get("dest") is not None:
                 ret["stmts"].append({"pl": copy.deepcopy(t["dest"]), "rv": {"k": "use", "o": {"k": "move", "pl": {"l": off_l, "p": []}}}, "line": line})
             cur["blocks"].append(params)
@@ -575,6 +597,21 @@ def apply(prog, Body):
                 table[p] = Body(p, new_raw, b.crate, b.config, elab=b.elab)
                 if table_name == "bodies":
                     prog.inlined[p] = done
+        if table_name == "bodies":
+            # coroutine bodies of new `async fn` helpers whose every poll was replaced by the body itself: looked at where they were inlined
+            prog.awaited_inlined = set()
+            for caller, cbody in table.items():
+                for blk in cbody.raw["blocks"]:
+                    fc = blk.get("from_closure")
+                    if fc and fc in table and table[fc].kind == "coroutine" and owner_fn(fc) not in known:
+                        prog.awaited_inlined.add(fc)
+            still_polled = set()
+            for caller, cbody in table.items():
+                for blk in cbody.raw["blocks"]:
+                    t = blk["term"]
+                    if t and t.get("k") == "call" and (t.get("callee") or "").endswith("Future::poll") and t.get("resolved") in prog.awaited_inlined:
+                        still_polled.add(t["resolved"])
+            prog.awaited_inlined -= still_polled
         if table_name == "bodies":
             # closures defined inside an inlined helper, or inside a closure whose body was inlined by the combinator lowering, are now
             # built in the caller as well: their captured values are described there
